@@ -176,6 +176,19 @@ CHECKS = {
              "Four documented mix-in schemas that reference Start without defining it are listed as known findings.",
         technique="runtime exploration: BFS with the real machine as transition function + cone-of-influence BFS + random-walk validation, invariant oracle on every reached set",
         engine="registry", design_ref="5/C19"),
+    "C20": dict(
+        level="testing",
+        text="reflect enumerates every exported method of *Machine, *Event, *Transition, *Mutation, S, Time, *TimeIndex, Clock, Schema and State (a 'surface' case reports how many, "
+             "and which are skipped as documented misuse); each is called with tuples from per-type argument domains (empty, nil, duplicate lists, canceled and nil contexts where the godoc "
+             "says optional, events bound / without a machine / of the running handler, every Position and MutationType) on machines in the phases fresh, inside a handler (mid-queue), "
+             "errored, after SetSchema and disposed, under recover and a watchdog that classifies a goroutine dump. Law cases compare S.* / SAdd / SRem / StatesDiff / StatesShared / "
+             "ParseStates / Time.* against set references on PRNG lists; helper cases run AddSync/RemoveSync/Cant*/Ask*/WaitFor* on a machine with vetoing handlers and judge the result "
+             "against what then happens to the machine; copy cases mutate every value a getter returns and compare a full snapshot of the machine; JSON cases feed the integration handlers.",
+        note="Argument domains are finite samples per type, not the full domain; package-level functions are covered by the directed law/helper/JSON cases, not by reflection (Go cannot "
+             "enumerate them at run time). Tuples that break a documented relation between arguments (IsTime with a time longer than its states, a Mutation index shorter than its called "
+             "indexes, a nil *Event) are excluded and counted. The one timing-dependent scenario (WaitForAll's deadline) is guarded by a control timer and needs all counted trials to agree.",
+        technique="runtime monitor: reflection-driven totality fuzzing under recover + watchdog, reference-model laws, copy-isolation snapshots",
+        engine="registry", design_ref="5/C20"),
 }
 
 NOT_YET = "check not built yet in this round (planned, see DESIGN.md section 5)"
